@@ -660,7 +660,9 @@ pub fn c16(tier: Tier) -> i32 {
         // digit runs beyond u64 / non-ASCII numerals (a name-ordering helper would parse them)
         "115792089237316195423570985008687907853269984665640564039457584007913129639935.json", "area-m\u{b2}.csv", "\u{663}.txt", "\u{bd}.md", "2024-01-01_18446744073709551616.log",
     ];
-    let names_elig = ["a.sol", ".sol", "t.sol", "é.sol", "a b.sol", "tt.sol", "at.sol", "x.y.sol"];
+    let names_elig = ["a.sol", ".sol", "t.sol", "é.sol", "a b.sol", "tt.sol", "at.sol", "x.y.sol", "T.sol", "sol.sol", "t..sol", "a.tsol.sol"];
+    // names in which ".t.sol" occurs before the end (a.t.sol.sol, x.t.solx.sol) are in neither list: whether such a file "is a
+    // Foundry test file ('.t.sol')" is a reading the property does not settle (the pinned filter says yes), see DESIGN 15.2
     for n in names_inelig {
         if eligible(n) {
             run.machinery(format!("alphabet error: {} is eligible", n));
@@ -685,7 +687,17 @@ pub fn c16(tier: Tier) -> i32 {
     }
     let mut elig: Vec<Entry> = Vec::new();
     for (i, n) in names_elig.iter().enumerate() {
-        elig.push(file(n, contents_elig[i % 4]));
+        // every eligible name carries findings (an eligible file that is dropped must be missed); the empty content rotates in
+        // as a second file of the same name in the thorough tier and for every fourth name here
+        // (the importing file has no findings of its own unless something leaks into it)
+        let with_findings = [contents_elig[0], contents_elig[1]];
+        elig.push(file(n, with_findings[i % 2]));
+        if i % 4 == 2 && tier == Tier::Quick {
+            elig.push(file(n, contents_elig[2]));
+        }
+        if i % 4 == 0 && tier == Tier::Quick {
+            elig.push(file(n, contents_elig[3]));
+        }
         if tier == Tier::Thorough {
             elig.push(file(n, contents_elig[(i + 1) % 4]));
         }
